@@ -769,11 +769,20 @@ func (r *Runner) teardown() {
 			linger = i.spec.PromoteLinger // user callbacks still winding down are not library leaks
 		}
 	}
-	time.Sleep(r.St.hang + 7*time.Second + linger)
+	// (store calls that were in flight when the last stop call returned take up to two latency
+	// legs to come back - with heartbeat intervals of a minute that is more than the fixed margin)
+	time.Sleep(r.St.hang + 7*time.Second + linger + 4*(r.Spec.Lat.Max+r.Spec.Lat.SpikeMax))
 	synctest.Wait()
 	r.sample("final")
 	lib, rep := Census()
 	r.add(Event{Kind: "final", N: int64(len(lib)), S: strings.Join(lib, " | "), Call: rep})
+	// watches the store handed out that nobody stopped (every instance has been stopped by now)
+	ow := r.St.OpenWatchers()
+	for _, i := range r.order {
+		if n := ow[i.spec.Name]; n > 0 {
+			r.add(Event{Kind: "final.watchers", Inst: i.spec.Name, N: int64(n)})
+		}
+	}
 	close(r.quit)
 	r.St.Close()
 	r.acts.Wait()
@@ -849,6 +858,11 @@ func YieldHook(site string) {
 	// a breakpoint may be placed on a yield site (client "*", op "yield:<site>", phase "site"):
 	// the goroutine is parked right there, inside the library, until the driver releases it
 	r.yieldClient.atPhase("yield:"+site, "site")
+	if site == "promoteGoroutineEntry" {
+		// (recorded with the goroutine's id: the C08 oracle wants to know whether the goroutine
+		// that delivers a term's OnPromote was already running when that term's OnDemote was entered)
+		r.add(Event{Kind: "site", S: site})
+	}
 	if r.Spec.YieldP <= 0 || site == "promoteGoroutineEntry" || site == "stopBetweenReadAndDelete" || site == "demoteGoroutineEntry" {
 		// (these two sites are only ever used with breakpoints: a random delay before the
 		// promotion callback would make every quiescent sample in between look like a
